@@ -8,5 +8,5 @@ CONSTANTS
   Cfgs <- CfgsMsg
   Junk = 34
   EmitOn = TRUE
-INVARIANTS ResumeEqFresh StableM OffsSane Emit EmitTwo EmitByte
+INVARIANTS ResumeEqFresh Idempotent StableM OffsSane Emit EmitTwo EmitByte
 CHECK_DEADLOCK FALSE
